@@ -189,10 +189,19 @@ func (c genCA) line() []string {
 
 func genCAConfig(r *wire.Rng) genCA {
 	c := genCA{hasSigner: true}
-	switch r.Intn(20) {
+	switch r.Intn(24) {
 	case 19:
 		c.kind = "future"
 		c.life = wire.Pick(r, []int64{7200, 30 * 86400})
+	case 20, 21:
+		c.kind = "plugfile"
+		c.life = wire.Pick(r, []int64{3600, 7200, 30 * 86400})
+		c.chain = []int64{c.life}
+	case 22:
+		c.kind, c.life = "selfk8s", farLife
+	case 23:
+		c.kind, c.life = "plugrsa", farLife
+		c.chain = []int64{farLife}
 	case 16:
 		c.kind, c.noRoot = "noroot", true
 		c.life = wire.Pick(r, []int64{7200, 30 * 86400})
@@ -351,6 +360,16 @@ func genCSR(r *wire.Rng) csrSpec {
 	}
 	c.ca = r.Chance(1, 3)
 	c.extra = r.Chance(1, 4)
+	if c.form == "ok" && r.Chance(1, 6) {
+		// what a real agent sends: util.GenCSR
+		c.form, c.ca = "gen", false
+		if c.key == "rsa-a" || c.key == "rsa-b" {
+			c.key = "ec256-a"
+			if r.Chance(1, 30) {
+				c.key = "rsa-a"
+			}
+		}
+	}
 	return c
 }
 
@@ -894,6 +913,26 @@ func genIssue(seed uint64, n int, outp string) {
 		out.Line(w.line...)
 		nreq := 1 + r.Intn(4)
 		for i := 0; i < nreq; i++ {
+			if i > 0 && (cfg.kind == "plug" || cfg.kind == "plug2" || cfg.kind == "plugfile") && r.Chance(1, 10) {
+				// the signing certificate is replaced under the live CA
+				life := wire.Pick(r, []int64{3600, 7200, 30 * 86400, -3600})
+				chain := "-"
+				if r.Chance(1, 2) {
+					chain = "c"
+				}
+				out.Line("rot", strconv.FormatInt(life, 10), chain)
+				if life > 0 {
+					cfg.life, cfg.kind = life, "plug" // later TTLs are judged against the new signer
+					cfg.chain = nil
+				}
+			}
+			if r.Chance(1, 30) && cfg.hasSigner && cfg.kind != "self" && cfg.kind != "selfk8s" && cfg.kind != "plugrsa" {
+				hosts := wire.Pick(r, [][]string{{"istiod.istio-system.svc"}, {"istiod.istio-system.svc", "istiod-remote.istio-system.svc"}, {"a,b"}, {"10.0.0.1", "spiffe://cluster.local/ns/istio-system/sa/istiod"}})
+				ttl := wire.Pick(r, []int64{600, 86400 * 365})
+				if !nearBoundary(ttl, cfg) {
+					out.Line("genkeycert", wire.EncList(hosts), strconv.FormatInt(ttl, 10))
+				}
+			}
 			if r.Chance(1, 4) {
 				out.Line(genReqA(r, w, cfg).line()...)
 				continue
